@@ -871,4 +871,51 @@ theorem encode_injective {p : Params} (hp : p.Valid) {d d' : List UInt8}
   rw [h, decode_encode p hp d'] at this
   exact (Option.some.inj this).symm
 
+/-! ### Extras for the refinement proofs (incremental encoder = batch encoder) -/
+
+/-- Searching past an already-scanned stuff-free prefix `w` (the bytes of the current
+chunk emitted so far) when no pair straddles the seam: the search in the rest,
+shifted. -/
+theorem findStuff_append_of_none {w r : List UInt8} (hw : findStuff w = none)
+    (hs : ¬ (w.getLast? = some FE ∧ r.head? = some FD)) :
+    findStuff (w ++ r) = (findStuff r).map (· + w.length) := by
+  cases hr : findStuff r with
+  | none =>
+    simp only [Option.map_none]
+    exact findStuff_append_none.2 ⟨hw, hr, hs⟩
+  | some i =>
+    obtain ⟨pre, post, rfl, rfl, h3⟩ := findStuff_eq_some_iff.1 hr
+    have : findStuff (w ++ pre) = none := by
+      refine findStuff_append_none.2 ⟨hw, h3, ?_⟩
+      rintro ⟨h1, h2⟩
+      apply hs
+      refine ⟨h1, ?_⟩
+      cases pre with
+      | nil => simp at h2
+      | cons x t => simpa using h2
+    rw [← List.append_assoc, findStuff_append_stuff _ this]
+    simp [Nat.add_comm]
+
+/-- A pair straddling the seam is found at the last byte of the prefix. -/
+theorem findStuff_append_straddle {w r : List UInt8} (hw : findStuff (w ++ [FE]) = none) :
+    findStuff (w ++ FE :: FD :: r) = some w.length := by
+  have h := (findStuff_append_none.1 hw).1
+  exact findStuff_append_stuff r h
+
+/-- The encoder always emits at least the header of a final chunk. -/
+theorem wf_ne_nil {p : Params} {first : Bool} {b d : List UInt8}
+    (h : WellFormedFrom p first b d) : b ≠ [] := by
+  cases h with
+  | last hh _ _ => simp [isHeader_ne_nil hh]
+  | full hh _ _ _ => simp [isHeader_ne_nil hh]
+  | stuff hh _ _ _ => simp [isHeader_ne_nil hh]
+
+theorem encode_ne_nil (p : Params) (hp : p.Valid) (d : List UInt8) : encode p d ≠ [] :=
+  wf_ne_nil (encode_wf hp d)
+
+/-- Lower bound: the encoding is at least one byte longer than the payload. -/
+theorem encode_length_pos (p : Params) (hp : p.Valid) (d : List UInt8) :
+    d.length + 1 ≤ (encode p d).length := by
+  rw [encode_length_eq p hp]; omega
+
 end Woodpile.Hcobs.Spec
